@@ -260,6 +260,7 @@ func (c *Ctx) Guard(sigPrefix string, f func()) (panicked bool) {
 	return false
 }
 
+var sigKeyRe = regexp.MustCompile(`"sigkey":"([^"]*)"`)
 var numRe = regexp.MustCompile(`-?\d+`)
 var hexRe = regexp.MustCompile(`0x[0-9a-f]+`)
 
@@ -508,6 +509,9 @@ func runWorker(self string, p *Prop, tier string, w, n int, deadline time.Time, 
 			class = "hang"
 		}
 		sigd := fatalSig(class, tail)
+		if m := sigKeyRe.FindStringSubmatch(desc); m != nil {
+			sigd = m[1] + "|" + sigd
+		}
 		wr.crashes = append(wr.crashes, &VRec{Sig: sigd, Count: 1, Seq: seq, W: w, N: n, Desc: desc, Detail: trunc(tail, 3000)})
 		if sub > 0 {
 			skips = append(skips, fmt.Sprintf("%d.%d", seq, sub))
